@@ -15,7 +15,7 @@ use crate::token::variance::natural::{
 };
 use crate::token::variance::ops::{Conjunction, Disjunction, Product};
 use crate::token::walk::{self, ChildToken, Fold, Forward, ParentToken, Sequencer, TokenEntry};
-use crate::token::{Boundary, BranchKind, LeafKind};
+use crate::token::{Boundary, BranchKind, LeafKind, Repetition, Token};
 
 pub use Boundedness::{Bounded, Unbounded};
 
@@ -310,22 +310,70 @@ where
 #[derive(Debug, Default)]
 pub struct TreeExhaustiveness;
 
+impl TreeExhaustiveness {
+    // Whether or not a leaf token matches any text of any length.
+    fn is_unbounded(leaf: &LeafKind<'_>) -> bool {
+        if let Some(Boundary::Separator) = leaf.boundary() {
+            true
+        }
+        else {
+            let breadth = self::term::<Breadth>(leaf);
+            let text = self::term::<Text>(leaf);
+            breadth.is_unbounded() && text.is_unbounded()
+        }
+    }
+
+    // Whether or not a repetition matches any text of any length within a component, like a
+    // zero-or-more wildcard: it has no bounds and repeats only tokens that are unbounded in text
+    // and, except for at most one of them, unbounded in breadth (consider `<?>` and `<?*>`, but
+    // not `<??>`, which matches no text of odd length, nor `<?:2,>`, which matches no text of
+    // length one).
+    fn is_unbounded_repetition<A>(repetition: &Repetition<'_, A>) -> bool {
+        let mut n = 0usize;
+        repetition.variance().lower().into_usize() == 0
+            && repetition.variance().upper().into_usize().is_none()
+            && walk::forward(repetition.token())
+                .map(TokenEntry::into_token)
+                .all(|token| match token.as_leaf() {
+                    Some(leaf) => {
+                        if !self::term::<Breadth>(leaf).is_unbounded() {
+                            n += 1;
+                        }
+                        leaf.boundary().is_none() && self::term::<Text>(leaf).is_unbounded()
+                    },
+                    _ => matches!(token.as_branch(), Some(BranchKind::Concatenation(_))),
+                })
+            && n <= 1
+    }
+
+    fn is_unbounded_tree<A>(token: &Token<'_, A>) -> bool {
+        match token.as_branch() {
+            Some(BranchKind::Repetition(repetition))
+                if Self::is_unbounded_repetition(repetition) =>
+            {
+                true
+            },
+            Some(branch) => branch
+                .tokens()
+                .into_inner()
+                .iter()
+                .all(Self::is_unbounded_tree),
+            _ => token.as_leaf().map_or(true, Self::is_unbounded),
+        }
+    }
+
+    // Whether or not a token is a branch that has some leaf token that is bounded in breadth or
+    // text. Such a branch decides exhaustiveness by itself.
+    fn is_bounded_branch<A>(token: &Token<'_, A>) -> bool {
+        token.as_leaf().is_none() && !Self::is_unbounded_tree(token)
+    }
+}
+
 impl Sequencer for TreeExhaustiveness {
     fn enqueue<'i, 't, A>(
         &mut self,
         parent: ParentToken<'i, 't, A>,
     ) -> impl Iterator<Item = ChildToken<'i, 't, A>> {
-        fn is_unbounded(leaf: &LeafKind<'_>) -> bool {
-            if let Some(Boundary::Separator) = leaf.boundary() {
-                true
-            }
-            else {
-                let breadth = self::term::<Breadth>(leaf);
-                let text = self::term::<Text>(leaf);
-                breadth.is_unbounded() && text.is_unbounded()
-            }
-        }
-
         // A branch that has some bounded leaf token decides exhaustiveness by itself: tokens before
         // such a branch must not contribute terms, because the text that the branch matches may
         // end the path.
@@ -336,13 +384,9 @@ impl Sequencer for TreeExhaustiveness {
                 return false;
             }
             match token.as_ref().as_leaf() {
-                Some(leaf) => is_unbounded(leaf),
+                Some(leaf) => Self::is_unbounded(leaf),
                 _ => {
-                    is_bounded = is_conjunctive
-                        && !walk::forward(*token.as_ref())
-                        .map(TokenEntry::into_token)
-                        .filter_map(|token| token.as_leaf())
-                        .all(is_unbounded);
+                    is_bounded = is_conjunctive && Self::is_bounded_branch(*token.as_ref());
                     true
                 },
             }
@@ -386,6 +430,12 @@ impl<'t, A> Fold<'t, A> for TreeExhaustiveness {
         use Variance::{Invariant, Variant};
 
         match branch {
+            // The bounds of a repetition only multiply the depth of tokens that are unbounded in
+            // breadth and text. Consider `<{a}/:1,>*`. The depth of this pattern is unbounded, but
+            // it matches `a/x` and not `a/x/y` and so is nonexhaustive.
+            BranchKind::Repetition(repetition) if Self::is_bounded_branch(repetition.token()) => {
+                term
+            },
             branch @ BranchKind::Repetition(_) => match term.as_variance() {
                 // When folding terms into a repetition, only finalize variant terms and the
                 // multiplicative identity and annihilator (one and zero). This is necessary,
